@@ -7,7 +7,7 @@ Local Open Scope nat_scope.
 (* the table is exactly the list of stored values; keys point into it *)
 Definition DInv (d : DictB) : Prop :=
   exists k kv kvals vk offs data,
-    d_keys d = BdPrim k kv kvals /\ d_values d = BdUtf8 vk None offs data /\
+    d_keys d = BdPrim (PInt k) kv kvals /\ d_values d = BdUtf8 vk None offs data /\
     ValOk kv (length kvals) /\ OffsOk offs (length data) /\
     ranges data offs = Some (d_index d) /\ NoDup (d_index d) /\
     Forall (fun z => in_int k z = true) kvals /\
@@ -44,8 +44,8 @@ Proof.
   destruct value; repeat split.
 Qed.
 
-Lemma push_key k kv kvals idx k' : push_scalar (VInt U64 (Z.of_nat idx)) (BdPrim k kv kvals) = Ok k' ->
-  exists kv', set_validity kv (length kvals) true = Ok kv' /\ k' = BdPrim k kv' (kvals ++ [Z.of_nat idx]) /\ in_int k (Z.of_nat idx) = true.
+Lemma push_key k kv kvals idx k' : push_scalar (VInt U64 (Z.of_nat idx)) (BdPrim (PInt k) kv kvals) = Ok k' ->
+  exists kv', set_validity kv (length kvals) true = Ok kv' /\ k' = BdPrim (PInt k) kv' (kvals ++ [Z.of_nat idx]) /\ in_int k (Z.of_nat idx) = true.
 Proof.
   cbn [push_scalar prim_value]. destruct (in_int k (Z.of_nat idx)) eqn:E; [|discriminate]. cbn [bind]. intros H. apply bind_ok in H as (kv' & Hs & H). injection H as <-. eauto.
 Qed.
@@ -155,7 +155,7 @@ Proof.
     rewrite (IH zs eq_refl Ha). reflexivity.
 Qed.
 
-Lemma dict_content_eq d k kv kvals vk offs data : d_keys d = BdPrim k kv kvals -> d_values d = BdUtf8 vk None offs data ->
+Lemma dict_content_eq d k kv kvals vk offs data : d_keys d = BdPrim (PInt k) kv kvals -> d_values d = BdUtf8 vk None offs data ->
   dict_content d =
   match apply_validity (some_bitmap kv) (map LInt kvals), ranges data offs with
   | Some ks, Some rs => mapM_opt (dict_lookup (map LBytes rs)) ks
@@ -210,7 +210,7 @@ Lemma wf_arr_dict strict nm key val nl keys values :
 Proof. reflexivity. Qed.
 
 Theorem dict_wf strict d nm nullable : DInv d ->
-  forall k kv kvals vk offs data, d_keys d = BdPrim k kv kvals -> d_values d = BdUtf8 vk None offs data ->
+  forall k kv kvals vk offs data, d_keys d = BdPrim (PInt k) kv kvals -> d_values d = BdUtf8 vk None offs data ->
   vnull (mkField nm (DDict k vk) nullable) kv -> is_utf8_kind vk = true ->
   wf_arr strict (mkField nm (DDict k vk) nullable) (dict_arr d) = true.
 Proof.
@@ -218,7 +218,7 @@ Proof.
   rewrite Ek in Ek'. injection Ek' as -> -> ->. rewrite Ev in Ev'. injection Ev' as -> -> ->.
   unfold dict_arr. rewrite Ek, Ev. cbn [into_array]. rewrite wf_arr_dict. change (some_bitmap None) with (@None Bitmap).
   assert (Wk : wf_arr strict (mkField [] (DPrim (PInt k)) nullable) (APrim (PInt k) (some_bitmap kv) kvals) = true).
-  { apply (wf_of_good strict (BdPrim k kv kvals)); [split; [reflexivity|exact Hvn]|exact Hkv|exact Hkeys]. }
+  { apply (wf_of_good strict (BdPrim (PInt k) kv kvals)); [split; [reflexivity|exact Hvn]|exact Hkv|exact Hkeys]. }
   rewrite Wk.
   assert (Wv : wf_arr strict (mkField [] (DBytes vk) false) (ABytes vk None offs data) = true).
   { apply (wf_of_good strict (BdUtf8 vk None offs data)); [repeat split; assumption|split; [exact I|exact Ho]|].
@@ -250,7 +250,7 @@ Proof. induction v; cbn [strip interp]; try reflexivity; assumption. Qed.
 (* the denotation of a value in a dictionary column is interp of the field: text for everything that
    has a to_string, null for the null markers (nullable columns only) *)
 Theorem dict_push_content v d d' lvs nm key val nullable kv kvals :
-  DInv d -> d_keys d = BdPrim key kv kvals -> vnull (mkField nm (DDict key val) nullable) kv ->
+  DInv d -> d_keys d = BdPrim (PInt key) kv kvals -> vnull (mkField nm (DDict key val) nullable) kv ->
   dict_content d = Some lvs -> dict_push v d = Ok d' ->
   exists lv, interp (mkField nm (DDict key val) nullable) v = IOk lv /\ dict_content d' = Some (lvs ++ [lv]).
 Proof.
@@ -268,7 +268,7 @@ Qed.
 (* ---------------- every batch starts afresh ---------------- *)
 Definition dict_kinds (d : DictB) : option (IntKind * bool * BytesKind) :=
   match d_keys d, d_values d with
-  | BdPrim k kv _, BdUtf8 vk None _ _ => Some (k, match kv with Some _ => true | None => false end, vk)
+  | BdPrim (PInt k) kv _, BdUtf8 vk None _ _ => Some (k, match kv with Some _ => true | None => false end, vk)
   | _, _ => None
   end.
 
@@ -290,7 +290,7 @@ Qed.
 
 Theorem dict_reset_fresh d k nl vk : dict_kinds d = Some (k, nl, vk) -> dict_reset d = dict_new k vk nl.
 Proof.
-  unfold dict_kinds, dict_reset, dict_new. destruct (d_keys d) as [| k0 kv kvals | | |]; try discriminate.
+  unfold dict_kinds, dict_reset, dict_new. destruct (d_keys d) as [| k0 kv kvals | | |]; try discriminate. destruct k0 as [k0| | | | | | | | | |]; try discriminate.
   destruct (d_values d) as [| |vk0 vv offs data| |]; try discriminate. destruct vv; [discriminate|]. intros H. injection H as <- <- <-.
   cbn [reset reset_validity]. destruct kv; reflexivity.
 Qed.
